@@ -135,7 +135,8 @@ inline schema_t random_schema(rng_t& r, const schema_opts_t& o)
 class sim_datasource_t final : public datasource_t
 {
 public:
-    // value_mode: 0 continuous random, 1 few distinct values (ties), 2 small integers
+    // value_mode: 0 continuous random, 1 few distinct values (ties), 2 small integers;
+    // +10: additionally some float64 features live at an extreme magnitude (physical units, subnormal numbers)
     sim_datasource_t(schema_t schema, uint64_t seed, double missing_rate, bool target_always_given = true, int value_mode = 0)
         : datasource_t("sim")
         , m_schema(std::move(schema))
@@ -191,6 +192,13 @@ private:
             {
                 rate = 0.0;
             }
+            // magnitude of this feature (float64 inputs only): values are drawn at O(1) and multiplied by an exact power of ten
+            double magnitude = 1.0;
+            if (m_value_mode >= 10 && f != m_schema.target && feat.type() == feature_type::float64 && r.coin(0.25))
+            {
+                static const double scales[] = {1e-310, 1e-300, 1e-100, 1e-30, 1e-19, 1e-12, 1e6, 1e30, 1e100};
+                magnitude                    = scales[r.next() % 9];
+            }
             for (tensor_size_t s = 0; s < m_schema.samples; ++s)
             {
                 const bool given = !(r.unit() < rate);
@@ -212,7 +220,7 @@ private:
                     const auto n = ::nano::size(feat.dims());
                     for (tensor_size_t k = 0; k < n; ++k)
                     {
-                        vals.push_back(draw_value(r, feat.type()));
+                        vals.push_back(draw_value(r, feat.type()) * magnitude);
                     }
                 }
                 if (!given)
@@ -271,17 +279,17 @@ private:
         case feature_type::uint32: return static_cast<double>(r.range(0, 1000000));
         case feature_type::uint64: return static_cast<double>(r.range(0, 10000000));
         case feature_type::float32:
-            if (m_value_mode == 1)
+            if (m_value_mode % 10 == 1)
             {
                 return static_cast<double>(r.range(-2, 2)) * 0.5;
             }
             return static_cast<double>(static_cast<float>(r.real(-3.0, 3.0)));
         default:
-            if (m_value_mode == 1)
+            if (m_value_mode % 10 == 1)
             {
                 return static_cast<double>(r.range(-3, 3)) * 0.25;
             }
-            if (m_value_mode == 2)
+            if (m_value_mode % 10 == 2)
             {
                 return static_cast<double>(r.range(-5, 5));
             }
